@@ -12,6 +12,9 @@ R08.3  section dispatcher: the reader table has one reader per id 0..12 in the o
 R08.4  custom sections are inert: code reachable from the custom-section reader writes only module->debugSections and
        module->functionNames, and the name-section path is guarded by the debug option
 R08.5  data segment kinds: reading kind 0 yields the record of kind 2 with memory index 0 (partial evaluation of the reader)
+R08.7  immediates are decoded with the decoder of their specified type: for every instruction the sequence of decoder calls
+       the translator makes equals the instruction's immediate list in the binary format (a u32 read as a single byte, or a
+       signed field read unsigned, accepts only some of the valid encodings)
 R08.6  absent = empty: the module record comes from a zero-initialising allocation, and loops over module arrays are
        bounded by the count stored next to the array they index
 """
@@ -556,6 +559,77 @@ def check_absent_is_empty(chk, tu, funcs):
     return n_loops
 
 
+# ---- R08.7 ----------------------------------------------------------------------------------------
+
+def check_immediate_decoders(chk):
+    from .. import oracle, templates, memrules as mr
+    from . import c01, c03, c11
+    tus = emit.translator_tus(('c.c', 'opcode.c', 'instruction.c'), chk=chk)
+    it = emit.make_interp(tus)
+    n = 0
+
+    def run_one(label, site, fn, want_tags=None):
+        try:
+            tpls = fn()
+        except pe.PEError as e:
+            if not isinstance(e, emit.ScriptMismatch):
+                raise AnalysisBroken('R08.7 %s: %s' % (label, e))
+            chk.fail('R08.7', label, '%s: %s - the translator reads this immediate with a decoder of another type, so only some of the valid '
+                     'encodings of the same instruction are accepted or they are decoded differently' % (label, e), site)
+            return
+        good = [t for t in tpls if t.ok]
+        if not good:
+            chk.note('R08.7 %s: no successful emission path (decided by the owning property)' % label)
+            return
+        for t in good:
+            tags = [tag for tag, v in t.log if v != 'EOF']
+            if want_tags is not None:
+                chk.expect(tags[:len(want_tags)] == want_tags, 'R08.7', label,
+                           '%s consumes %r from the code stream; the binary format lists %r' % (label, tags, want_tags), site)
+            else:
+                chk.ok('R08.7', label, repr(tags))
+    for row in oracle.ROWS:
+        cls = row['sem'].get('cls')
+        if cls in c11.SKIP_CLS:
+            continue
+        imm = c11.BULK_IMM.get(row['name'])
+        if cls == 'const':
+            imm = {'imm0': 1234}
+        elif 'access' in row['sem'] and cls.startswith('atomic.'):
+            imm = {'align': oracle.natural_align(row['sem']['access']), 'offset': 8}
+        toks = templates.tokens_for(row, imm, True)
+        want = [t for t, v in toks][:-1]
+        n += 1
+        run_one(row['name'], 'decode/' + row['name'],
+                lambda row=row, imm=imm: templates.extract(it, row, mr.FILLER + row['params'], 0, 0, imm=imm), want)
+    S = c03.script
+    c = c03.const
+    V = oracle.VALTYPE_ENC
+    scripts = {
+        'br': S(('block', {'imm0': oracle.BLOCKTYPE_VOID}), ('br', {'imm0': 0}), 'end'),
+        'br_if': S(('block', {'imm0': oracle.BLOCKTYPE_VOID}), c('i32', 1), ('br_if', {'imm0': 0}), 'end'),
+        'br_table': S(('block', {'imm0': oracle.BLOCKTYPE_VOID}), c('i32', 0), ('br_table', {'labels': [0, 0], 'default': 0}), 'end'),
+        'block/loop/if': S(('block', {'imm0': V['i32']}), c('i32', 1), ('if', {'imm0': V['i32']}), c('i32', 2), 'else', c('i32', 3), 'end', 'end'),
+        'select': S(c('i32', 1), c('i32', 2), c('i32', 0), 'select'),
+    }
+    for name, toks in scripts.items():
+        n += 1
+        run_one(name, 'decode/' + name, lambda toks=toks: c03.run_script(it, toks, ['i64']), [t for t, v in toks])
+    module, function = c03.local_context(it)
+    for name, stack in (('local.get', ['i64']), ('local.set', ['i64', 'i32']), ('local.tee', ['i64', 'i32'])):
+        toks = S((name, {'imm0': 0}))
+        n += 1
+        run_one(name, 'decode/' + name, lambda toks=toks, stack=stack: c03.run_script(it, toks, stack, module=module, function=function), [t for t, v in toks])
+    from .. import modules as M
+    gm = lambda interp: M.build(interp, types=[([], [])], functions=[0], globals_=[('i32', True, M.i32_const(1))], tables=[(1, 2, False)])
+    for name, stack, imm in (('global.get', ['i64'], {'imm0': 0}), ('global.set', ['i64', 'i32'], {'imm0': 0}), ('call', ['i64'], {'imm0': 0}),
+                             ('call_indirect', ['i64', 'i32'], {'typeidx': 0, 'tableidx': 0})):
+        toks = S((name, imm))
+        n += 1
+        run_one(name, 'decode/' + name, lambda toks=toks, stack=stack: c03.run_script(it, toks, stack, module=gm), [t for t, v in toks])
+    return n
+
+
 def run(chk):
     chk.explanation = (
         'Reader-side structural rules: (1) every call of a LEB128 decoder uses the returned byte count only as a truth value, so padding '
@@ -575,10 +649,12 @@ def run(chk):
     n4 = check_custom_inert(chk, rtu, funcs)
     check_segment_kinds(chk, rtu)
     n6 = check_absent_is_empty(chk, rtu, funcs)
-    chk.extra['sites'] = dict(leb_call_sites=n1, decoder_paths=n2, custom_section_writes=n4, container_loops=n6)
+    n7 = check_immediate_decoders(chk)
+    chk.extra['sites'] = dict(leb_call_sites=n1, decoder_paths=n2, custom_section_writes=n4, container_loops=n6, instructions_decoded=n7)
     chk.floor('R08.1', 60)
     chk.floor('R08.2', 60)
     chk.floor('R08.3', 28)
     chk.floor('R08.4', 3)
     chk.floor('R08.5', 8)
     chk.floor('R08.6', 10)
+    chk.floor('R08.7', 180)
